@@ -3,49 +3,37 @@ import MythVerif.Proofs.WsQueueTsoTac
 namespace MythVerif.WsqTso
 open MythVerif.Wsq
 
-set_option maxHeartbeats 4000000 in
 theorem t_tk3 (s s' : St) (p : Pid) (b x) : Inv s → s.tpc p = .tk3 b x → stepT s p = some s' → Inv s' := by
   intro h heq hs
   have hb := h.tbufE p (by simp [heq, mayBuf])
-  cases h
   simp only [stepT, heq, hb, viewPtr_nil] at hs
   simp at hs; subst hs
-  simp only [ownerLocked, carry, resetting, ownerFlight] at *
-  tso_finish
+  tso_fastT h p [tk3]
 
-set_option maxHeartbeats 4000000 in
 theorem t_tk4 (s s' : St) (p : Pid) (r) : Inv s → s.tpc p = .tk4 r → stepT s p = some s' → Inv s' := by
   intro h heq hs
   have hcfg := h.cfg
   have hb := h.tbufE p (by simp [heq, mayBuf])
-  cases h
   simp only [stepT, heq, releaseT, hcfg, code_unlockFence, if_true, hb] at hs
   simp at hs; subst hs
-  simp only [ownerLocked, carry, resetting, ownerFlight] at *
-  tso_finish
+  tso_fastT h p [tk4]
 
-set_option maxHeartbeats 4000000 in
 theorem t_tk5 (s s' : St) (p : Pid) (b) : Inv s → s.tpc p = .tk5 b → stepT s p = some s' → Inv s' := by
   intro h heq hs
   have hb := h.tbufE p (by simp [heq, mayBuf])
-  cases h
   simp only [stepT, heq, hb] at hs
   simp at hs; subst hs
-  simp only [ownerLocked, carry, resetting, ownerFlight] at *
-  tso_finish
+  tso_fastT h p [tk5]
 
-set_option maxHeartbeats 4000000 in
 theorem t_tk6 (s s' : St) (p : Pid) : Inv s → s.tpc p = .tk6 → stepT s p = some s' → Inv s' := by
   intro h heq hs
   have hcfg := h.cfg
-  cases h
   simp only [stepT, heq, releaseT, hcfg, code_unlockFence, if_true] at hs
   split at hs
   · rename_i hb
     simp at hb
     simp at hs; subst hs
-    simp only [ownerLocked, carry, resetting, ownerFlight] at *
-    tso_finish
+    tso_fastT h p [tk6]
   · simp at hs
 
 end MythVerif.WsqTso
